@@ -1,0 +1,37 @@
+// Copyright 2021 TiKV Project Authors.
+//
+// Licensed under the Apache License, Version 2.0 (the "License");
+// you may not use this file except in compliance with the License.
+// You may obtain a copy of the License at
+//
+//     http://www.apache.org/licenses/LICENSE-2.0
+//
+// Unless required by applicable law or agreed to in writing, software
+// distributed under the License is distributed on an "AS IS" BASIS,
+// See the License for the specific language governing permissions and
+// limitations under the License.
+
+//go:build verif
+// +build verif
+
+package cluster
+
+import "github.com/tikv/pd/server/core"
+
+// VerifProcessRegionHeartbeat drives processRegionHeartbeat without a coordinator.
+func (c *RaftCluster) VerifProcessRegionHeartbeat(region *core.RegionInfo) error {
+	return c.processRegionHeartbeat(region)
+}
+
+// VerifCheckStores runs one round of the store checker.
+func (c *RaftCluster) VerifCheckStores() { c.checkStores() }
+
+// VerifBuryStore calls buryStore.
+func (c *RaftCluster) VerifBuryStore(storeID uint64) error { return c.buryStore(storeID) }
+
+// VerifSetRunning marks the cluster as running (for harnesses that use InitCluster directly).
+func (c *RaftCluster) VerifSetRunning(v bool) {
+	c.Lock()
+	defer c.Unlock()
+	c.running = v
+}
